@@ -344,6 +344,25 @@ def scen_maskdict_misc(ctx, M):
     ctx.check('C08-plain-string-masked-text', out['note'] == 'token=###')
     ctx.check('C08-argument-unmodified',
               all(arg[k] is snap[k] for k in snap) and len(arg) == len(snap))
+    # order matters to implementations that carry state from one key to the
+    # next: a sensitive string key first, then non-string keys
+    arg2 = {'password': 'x', 7: sval, b'k': 'plain', ('t',): None,
+            'user': 'bob'}
+    out2 = su.mask_dict_password(arg2, secret='###')
+    ctx.check('C08-nonstring-key-after-sensitive-key',
+              out2[7] == 'token=###' and out2[b'k'] == 'plain' and
+              out2[('t',)] is None and out2['user'] == 'bob' and
+              out2['password'] == '###')
+    # mappings (dict or not) stored under a sensitive key are processed
+    # recursively, not replaced by the mask
+    arg3 = {'passwords': FrozenMap([('a', sval), ('token', 5)]),
+            'tokens': {'x': 1, 'secret': 'y'}}
+    out3 = su.mask_dict_password(arg3, secret='###')
+    ctx.check('C08-mapping-under-sensitive-key-recursed',
+              type(out3['passwords']) is dict and
+              out3['passwords'].get('a') == 'token=###' and
+              out3['passwords'].get('token') == '###' and
+              out3['tokens'] == {'x': 1, 'secret': '###'})
     for bad in (5, 'password', None, [('password', 'x')]):
         try:
             su.mask_dict_password(bad)
